@@ -770,6 +770,10 @@ func init() {
 		res := x.newTensorObj(fr, "view", d, x.tDtype(st, t), sx(x.ufn("k_slice", 2), x.tCont(st, t), sl.base()))
 		x.ghostSet(st, "t$view", res, "1")
 		x.ghostSet(st, "t$buf", res, x.tBuf(st, t))
+		// what was asked for is remembered per view (a view is a fresh object, so these facts are a
+		// snapshot that later writes to the slice list cannot invalidate): the parent tensor, which
+		// axes were left whole, and - for gonnx's own *ops.Slicer objects - start, end and step
+		x.viewFacts(fr, st, res, t, sl)
 		ok := and(sx("<=", sl.slen(), rank), x.nondetBool("slice_ok"))
 		return x.resultTE(fr, i, ok, res)
 	}
@@ -862,3 +866,35 @@ func (x *Exec) permitted(fr *Frame, comp, ref string) string {
 	return or(alts...)
 }
 
+
+// viewFacts records, for the view res = t.Slice(sl...), the uninterpreted snapshot functions
+// vparent(res), vwhole(res, d), vstart / vend / vstep(res, d).
+func (x *Exec) viewFacts(fr *Frame, st *State, res, t string, sl Val) {
+	x.uninterp("vparent", []string{SInt}, SInt)
+	x.uninterp("vwhole", []string{SInt, SInt}, SBool)
+	for _, f := range []string{"vstart", "vend", "vstep"} {
+		x.uninterp(f, []string{SInt, SInt}, SInt)
+	}
+	x.assume("true", eq(sx("vparent", res), t))
+	st0, ok := sl.T.Underlying().(*types.Slice)
+	if !ok {
+		return
+	}
+	et := st0.Elem()
+	tagH := x.comp(st, "E$"+typeKey(et)+"$0", elemSort(SInt))
+	payH := x.comp(st, "E$"+typeKey(et)+"$1", elemSort(SInt))
+	tagAt := sel2(tagH, sl.base(), add(sl.off(), "d"))
+	payAt := sel2(payH, sl.base(), add(sl.off(), "d"))
+	body := eq(sx("vwhole", res, "d"), eq(tagAt, "0"))
+	if pt := x.prog.typeByName("*ops.Slicer"); pt != nil {
+		stt := pt.(*types.Pointer).Elem()
+		var fs []string
+		for k, f := range []string{"vstart", "vend", "vstep"} {
+			h := x.comp(st, fmt.Sprintf("F$%s$%d", typeKey(stt), k), fieldSort(SInt))
+			fs = append(fs, eq(sx(f, res, "d"), sel(h, payAt)))
+		}
+		body = and(body, implies(eq(tagAt, x.typeTag(pt)), and(fs...)))
+	}
+	x.assume("true", fmt.Sprintf("(forall ((d Int)) (! (=> (and (<= 0 d) (< d %s)) %s) :pattern ((vwhole %s d))))", sl.slen(), body, res))
+	x.assume("true", fmt.Sprintf("(forall ((d Int)) (! (=> (>= d %s) (vwhole %s d)) :pattern ((vwhole %s d))))", sl.slen(), res, res))
+}
